@@ -1571,6 +1571,7 @@ private:
     options_type::iterator search_option_iterator(OptionTypes type);
     void try_parse_extensions(Memory::InputMemoryStream& stream);
     bool are_extensions_allowed() const;
+    bool is_length_field_used() const;
     uint32_t get_adjusted_inner_pdu_size() const;
     uint8_t get_option_padding(uint32_t data_size);
 
